@@ -30,6 +30,13 @@ pub fn rs_stub() -> std::hash::RandomState {
     unsafe { std::mem::transmute::<[u64; 2], std::hash::RandomState>([0, 0]) }
 }
 
+/// `String::push` restricted to ASCII (the raw formatters only push digits): appending one byte.
+/// Pushing a symbolic `char` through the real UTF-8 encoder costs 100 s and gigabytes per character.
+pub fn st_string_push_ascii(s: &mut String, c: char) {
+    assert!(c.is_ascii(), "string-push model: non-ASCII character pushed");
+    unsafe { s.as_mut_vec().push(c as u8); }
+}
+
 // ------------------------------------------------------------------ Report model
 
 /// All mutable model state lives in structs that start with a non-zero magic word:
